@@ -45,6 +45,8 @@ class World:
         self.ev_membership = Field('ev_membership', 'enum', MEMBERSHIPS); self.cons += self.ev_membership.cons
         self.ev_authorised_via = Field('ev_join_authorised', 'bool'); self.cons += self.ev_authorised_via.cons   # absent / valid user (= authoriser) / malformed
         self.ev_tpi = Field('ev_third_party_invite', 'bool'); self.cons += self.ev_tpi.cons                     # absent(or null) / present / malformed
+        self.ev_tpi_token = z3.BitVec('ev_third_party_invite_token', 8)      # signed.token: 0 absent, 1 the string "t", 2 not a string
+        self.cons.append(z3.ULE(self.ev_tpi_token, 2))
         self.prev_only_create = z3.Bool('prev_events_is_only_create')
         self.state_key_kind = z3.BitVec('state_key_kind', 8)    # 0 none, 1 "", 2 target user id, 3 "@zz" (not a user id), 4 sender's server name, 5 other server name
         self.cons.append(z3.ULE(self.state_key_kind, 5))
@@ -227,7 +229,11 @@ def build(C, E, w, version_rules):
 
         def h_tpi(E_, st, ty):
             f = w.ev_tpi
-            return [(f.absent(), ok(Adt(ty, None, [NONE]))), (f.ok(), ok(Adt(ty, None, [some(Obj('ThirdPartyInvite', None))]))), (f.bad(), err(errstr()))]
+            CJV = 'ruma_common::canonical_json::value::CanonicalJsonValue'
+            tok = lambda: Obj('String', cs(b'token'))
+            signed = Obj('SymMap', ((tok(), Adt(CJV, 'String', [Obj('String', cs(b't'))]), w.ev_tpi_token == 1),
+                                    (tok(), Adt(CJV, 'Integer', [mk_int(z3.BitVecVal(5, 64))]), w.ev_tpi_token == 2)))
+            return [(f.absent(), ok(Adt(ty, None, [NONE]))), (f.ok(), ok(Adt(ty, None, [some(Adt('events::member::ThirdPartyInvite', None, [signed]))]))), (f.bad(), err(errstr()))]
         handlers['RoomMemberContentThirdPartyInvite'] = h_tpi
     else:
         etype = {'message': tet('RoomMessage'), 'state': tet('RoomTopic'), 'aliases': tet('RoomAliases'), 'redaction': tet('RoomRedaction'),
